@@ -29,7 +29,7 @@ var lastMark []uintptr
 //
 //go:noinline
 func mark(msg string) string {
-	pcs := make([]uintptr, 1024)
+	pcs := make([]uintptr, 8192)
 	n := runtime.Callers(2, pcs)
 	lastMark = pcs[:n]
 	return msg
@@ -266,7 +266,7 @@ func Run(r *ev.Run) {
 	}
 	methodCoverage(r, covered)
 	n := r.N(30000, 2000000)
-	depths := []int{0, 0, 0, 3, 40, 120, 128, 500}
+	depths := []int{0, 0, 0, 3, 40, 120, 128, 500, 0, 0, 0, 3, 40, 120, 128, 500, 1100, 2600}
 	// frames between the logging line and the bottom of the stack with no wrappers and no extra depth
 	lastMark = nil
 	_ = ev.Guard(func() { deep(0, func() { wrap(0, func() { mark("probe") }) }) })
@@ -300,7 +300,15 @@ func Run(r *ev.Run) {
 		stackOn := func(l zapcore.Level) bool { return l >= stackThr }
 		stackDesc := fmt.Sprintf("threshold %v", stackThr)
 		var afterBuild func()
-		switch g.Intn(4) {
+		undecided := false // the enabler's answer for this call is not predicted: only "a trace that is there is complete" is judged
+		switch g.Intn(5) {
+		case 4:
+			// an enabler with a memory: it alternates between no and yes every time it is asked
+			asked := g.Intn(2)
+			stackEn = zap.LevelEnablerFunc(func(zapcore.Level) bool { asked++; return asked%2 == 0 })
+			undecided = true
+			stackDesc = "an enabler that alternates between no and yes each time it is consulted"
+			r.Count("stack_enabler:alternating", 1)
 		case 0:
 			var set [8]bool
 			for x := range set {
@@ -437,6 +445,9 @@ func Run(r *ev.Run) {
 			continue
 		}
 		wantStack := stackOn(lvl)
+		if undecided {
+			wantStack = e.Stack != ""
+		}
 		if (e.Stack != "") != wantStack {
 			bad("stack-presence", "stack attached=%v at level %v with stack traces configured as: %s", e.Stack != "", lvl, stackDesc)
 			continue
